@@ -84,12 +84,23 @@ def h_norm(ctx, n, r):
     ctx.claim('stab_equals_plain', ctx.eq(s, zp))
 
 
-def h_accuracy(ctx, n, r, signs):
-    """accuracy(Y1, Y2): true relative distance or the documented saturation values."""
+def h_accuracy(ctx, n, r, signs, tiny_last=False):
+    """accuracy(Y1, Y2): true relative distance or the documented saturation values.
+    tiny_last: the last cores have entries below the rescaling threshold of
+    core_stab (2^-400 .. 2^-340), the others are moderate."""
     Y1 = ctx.tt('a', n, r)
     Y2 = ctx.tt('b', n, r)
     B = 2 ** 100
-    for G in Y1 + Y2:
+    if tiny_last:
+        for G in Y1[:-1] + Y2[:-1]:
+            for x in G.reshape(-1):
+                ctx.assume(ctx.le(x, 2 ** 10))
+                ctx.assume(ctx.ge(x, Fraction(1, 2 ** 10)))
+        for G in (Y1[-1], Y2[-1]):
+            for x in G.reshape(-1):
+                ctx.assume(ctx.le(x, Fraction(1, 2 ** 340)))
+                ctx.assume(ctx.ge(x, Fraction(1, 2 ** 400)))
+    for G in ([] if tiny_last else Y1 + Y2):
         for x in G.reshape(-1):
             # magnitudes in [2^-100, 2^100]: no float64 under/overflow in the replay
             ctx.assume(ctx.le(x, B))
@@ -209,6 +220,7 @@ def instances(tier):
         out.append({'func': 'h_norm', 'params': {'n': n, 'r': r}})
     for n, r, sg in ([([1, 1, 1], 1, False)] if quick else [([1, 1, 1], 1, False), ([1, 1], 1, True), ([2, 1], 1, False)]):
         out.append({'func': 'h_accuracy', 'params': {'n': n, 'r': r, 'signs': sg}})
+    out.append({'func': 'h_accuracy', 'params': {'n': [1, 1], 'r': 1, 'signs': False, 'tiny_last': True}})
     out.append({'func': 'h_accuracy_dense', 'params': {'shape': [2, 2]}})
     for d, n in ([(3, 2)] if quick else [(3, 2), (4, 2)]):
         for k in range(d):
